@@ -45,6 +45,8 @@ func codeErr(c int) error {
 		return nil
 	case 50:
 		return io.EOF
+	case 51:
+		return io.ErrUnexpectedEOF
 	case 60:
 		return errReader
 	case 61:
@@ -106,4 +108,99 @@ func init() {
 		}
 		return VL(VI(0), obs)
 	})
+
+	// pw.write <p> <k> <mfail> <mok> <adapter>
+	register("pw.write", func(a []Val) Val {
+		p := append([]byte{}, a[0].B...)
+		snap := append([]byte{}, p...)
+		sw := newScriptedWriter(a[1].Int(), a[2].Int(), a[3].Int())
+		n, err := sw.adapter(a[4].Int()).Write(p)
+		return writerResult(int64(n), err, sw, string(snap) == string(p))
+	})
+	// pw.readfrom <script> <k> <mfail> <mok> <adapter>
+	register("pw.readfrom", func(a []Val) Val {
+		sr := &scriptReader{}
+		for _, e := range a[0].L {
+			sr.chunks = append(sr.chunks, append([]byte{}, e.L[0].B...))
+			sr.errs = append(sr.errs, codeErr(e.L[1].Int()))
+		}
+		sw := newScriptedWriter(a[1].Int(), a[2].Int(), a[3].Int())
+		n, err := sw.adapter(a[4].Int()).(io.ReaderFrom).ReadFrom(sr)
+		return writerResult(n, err, sw, true)
+	})
+}
+
+// scriptReader: the reader oracle of Model/PacketWriter.v (rd_read).
+type scriptReader struct {
+	chunks [][]byte
+	errs   []error
+	i      int
+	failed error
+}
+
+func (s *scriptReader) Read(p []byte) (int, error) {
+	if s.failed != nil {
+		return 0, s.failed
+	}
+	if s.i >= len(s.chunks) {
+		s.failed = io.EOF
+		return 0, io.EOF
+	}
+	c := s.chunks[s.i]
+	if len(c) <= len(p) {
+		n := copy(p, c)
+		e := s.errs[s.i]
+		s.i++
+		if e != nil {
+			s.failed = e
+		}
+		return n, e
+	}
+	n := copy(p, c[:len(p)])
+	s.chunks[s.i] = c[len(p):]
+	return n, nil
+}
+
+// scriptedWriter: the packet writer oracle (call k fails with errWriter returning mfail, all
+// others return (mok, nil)); records a copy of every packet it is called with.
+type scriptedWriter struct {
+	k, mfail, mok int
+	idx           int
+	calls         [][]byte
+}
+
+func newScriptedWriter(k, mfail, mok int) *scriptedWriter {
+	return &scriptedWriter{k: k, mfail: mfail, mok: mok}
+}
+
+func (s *scriptedWriter) WritePacket(p *packet.Packet) (int, error) {
+	s.calls = append(s.calls, append([]byte{}, p[:]...))
+	i := s.idx
+	s.idx++
+	if i == s.k {
+		return s.mfail, errWriter
+	}
+	return s.mok, nil
+}
+
+func (s *scriptedWriter) adapter(kind int) packet.Writer {
+	switch kind {
+	case 1:
+		return packet.IOWriteCloser(packet.NopCloser(s))
+	case 2:
+		return packet.IOWriter(packet.PacketWriterFunc(s.WritePacket))
+	}
+	return packet.IOWriter(s)
+}
+
+func writerResult(n int64, err error, sw *scriptedWriter, unchanged bool) Val {
+	calls := make([]Val, 0, len(sw.calls))
+	for _, c := range sw.calls {
+		calls = append(calls, VB(c))
+	}
+	e := VI(0)
+	if err != nil {
+		e = VI(int64(ioErrCode(err)))
+	}
+	return VOk(VL(VI(n), e, Val{K: 2, L: calls}, VBool(unchanged)))
 }
